@@ -206,6 +206,22 @@ namespace
       out.gmax = the_system_level.gate_sys.max(double(wrank + 1) * 1.5);
       out.gmin = the_system_level.gate_sys.min(double(wrank + 1) * 1.5);
       out.gsum = the_system_level.gate_sys.sum(double((wrank + 1) * (wrank + 1)));
+      {
+        // four scalar tickets in flight at once (dot, norm2 with the sqrt flag, max, min), waited in seeded order; each
+        // must deliver what its blocking twin delivered (reduction association may differ: rounding tolerance)
+        auto t_dot = gx.dot_async(gy);
+        auto t_nrm = gx.norm2_async();
+        auto t_max = the_system_level.gate_sys.max_async(double(wrank + 1) * 1.5);
+        auto t_min = the_system_level.gate_sys.min_async(double(wrank + 1) * 1.5);
+        double a_dot, a_nrm, a_max, a_min;
+        if(rc.wait_order) { a_min = t_min.wait(); a_nrm = t_nrm.wait(); a_max = t_max.wait(); a_dot = t_dot.wait(); }
+        else { a_dot = t_dot.wait(); a_max = t_max.wait(); a_nrm = t_nrm.wait(); a_min = t_min.wait(); }
+        double sabs = 0; for(Index d = 0; d < nd; ++d) sabs += std::abs(gx.local()(d) * gy.local()(d));
+        const double tol_dot = 1e-13 * (the_system_level.gate_sys.sum(sabs) + 1.0);
+        if(std::abs(a_dot - out.dot) > tol_dot) sim::fail("SCALAR_ASYNC", "dot_async with four scalar tickets in flight delivered " + std::to_string(a_dot) + ", the blocking dot " + std::to_string(out.dot));
+        if(std::abs(a_nrm - out.norm2) > 1e-13 * (std::abs(out.norm2) + 1.0)) sim::fail("SCALAR_ASYNC", "norm2_async (sqrt flag) with four scalar tickets in flight delivered " + std::to_string(a_nrm) + ", the blocking norm2 " + std::to_string(out.norm2));
+        if(a_max != out.gmax || a_min != out.gmin) sim::fail("SCALAR_ASYNC", "max_async/min_async with four scalar tickets in flight delivered " + std::to_string(a_max) + "/" + std::to_string(a_min) + ", the blocking calls " + std::to_string(out.gmax) + "/" + std::to_string(out.gmin));
+      }
       the_system_level.matrix_sys.apply(gr, gx);
       for(Index d = 0; d < nd; ++d) out.ax.push_back(gr.local()(d));
       the_system_level.matrix_sys.apply(gr, gx, gy, -0.5);
